@@ -31,16 +31,18 @@ LEVEL_TEXT = ("Lean theorems over all event histories of one object in one proce
 THEOREMS = [("Kopf.Props.C14", "Kopf.C14." + n) for n in [
     "resume_invoked_only_initial", "not_for_new", "after_fully_handled_never",
     "resumed_not_selected", "completed_never_again", "completed_never_again_run",
-    "eligible_selected", "eligible_invoked", "flipflop_regression", "stale_view_regression"]]
+    "eligible_selected", "eligible_invoked", "suppressed_keeps_initial", "flipflop_regression", "stale_view_regression"]]
 RULE = ("seeded scenarios: objects handled by a first incarnation, then stop/kill + restart; 1-3 resume handlers (label filters, "
         "deleted opt-in, failures/retries) next to create/update/delete handlers; re-listings (history compaction + 410), "
         "stream reconnects, edits and label flip-flops before/during/after the resume cycle, deletions; one case = one processing "
         "cycle; distinct & non-trivial = distinct (memory flags, reason, selected kinds, outcome shape) with a resume handler selected or gated out")
 TRUSTED = c02.TRUSTED
 ASSUMPTIONS = ["filters (`registries.match`) enter the model as the observed per-handler match result (C15's subject)",
-               "`eligible_invoked` is proved for the all-at-once lifecycle and an unchanged object (resume cause); for one-by-one/asap "
-               "and for objects edited while the operator was down (update cause with the resume handlers mixed in) only selection "
-               "(`eligible_selected` / `matching_selected`) is proved; eventual completion is C03's subject",
+               "`eligible_invoked` (first attempt in the first non-suppressed cycle; unchanged objects and objects edited while the "
+               "operator was down alike) is proved for the all-at-once lifecycle; `suppressed_keeps_initial` carries it over a "
+               "suppressed first cycle; for one-by-one/asap only selection (`eligible_selected` / `matching_selected`) is proved; "
+               "the oracle's positive clause (every eligible object gets every matching resume handler invoked in the incarnation) "
+               "covers all lifecycles on the generated histories; eventual completion is C03's subject",
                "handler ids are unique among the resuming handlers (`hres`: every registration under the id is a resuming one); "
                "a function stacked as @on.resume + @on.update under ONE id is outside the theorems (not generated either)",
                "one operator process = one memory: a restart is a fresh `run … none`; nothing is claimed across processes "
@@ -210,6 +212,45 @@ def oracle(ctx: Ctx, sc: dict, tr: dict) -> None:
                {"site": "process_changing_cause", "shape": "resume handler completed twice in one process"})
         ctx.oracle_fail(f"resume handler {hid} ran to completion {len(calls)} times for object {uid} in incarnation {inc}",
                         {"scenario": sc, "calls": calls[:3]}, sig)
+    # FIRST CLAUSE (positive): an object that exists when the operator starts (first seen in the listing), was
+    # handled before (last-handled state stored), carries no progress records, is not being deleted and matches the
+    # handler — and stays so for as long as this incarnation lives, which is long enough (≥ 10 s) — gets each such
+    # resume handler invoked at least once in this incarnation.
+    OWN = "kopf.zalando.org/"
+    inc_start = {m["inc"]: m["t"] for m in tr["marks"] if m["what"] == "start"}
+    inc_end = {m["inc"]: m["t"] for m in tr["marks"] if m["what"] in ("stopped", "killed")}
+    t_end = max([m["t"] for m in tr["marks"] if m["what"] == "end"] or [0])
+    called = {(c["inc"], c["uid"], c["id"]) for c in tr["calls"] if c["id"] in resume_ids}
+    by_obj: dict[tuple, list[dict]] = {}
+    for cyc in tr["cycles"]:
+        by_obj.setdefault((cyc["inc"], cyc["uid"]), []).append(cyc)
+    for (inc, uid), cycs in by_obj.items():
+        first = cycs[0]
+        if first["event_type"] is not None or inc not in inc_start:
+            continue
+        if inc_end.get(inc, t_end) - first["t0"] < 10.0 or sc.get("faults") or sc.get("echo_delay"):
+            continue
+        for hid, h in resume_ids.items():
+            want_labels = (h.get("opts") or {}).get("labels") or {}
+            def eligible(body: dict) -> bool:
+                meta = body.get("metadata") or {}
+                ann = meta.get("annotations") or {}
+                return (not meta.get("deletionTimestamp") and OWN + "last-handled-configuration" in ann
+                        and all((meta.get("labels") or {}).get(k) == v for k, v in want_labels.items()))
+            ann0 = (first["body"].get("metadata") or {}).get("annotations") or {}
+            has_progress = any(k.startswith(OWN) and k[len(OWN):] not in ("last-handled-configuration", "touch-dummy", "kopf-managed")
+                               for k in ann0)
+            if has_progress or not all(eligible(c["body"]) for c in cycs) or any(c["event_type"] == "DELETED" for c in cycs):
+                continue
+            script = h.get("script") or []
+            if any((a[0] if isinstance(a, list) else a) == "sleep" for a in script):
+                continue
+            ctx.count("first_clause", "eligible")
+            if (inc, uid, hid) not in called:
+                ctx.oracle_fail(f"resume handler {hid} was never invoked for object {uid}, which existed at the start of incarnation {inc}, "
+                                "was handled before, carries no progress, is not being deleted and matches",
+                                {"scenario": sc, "inc": inc, "uid": uid, "first_cycle": first["i"]},
+                                {"site": "process_resource_event", "shape": "eligible object never resumed"})
     # resume handlers never for objects first seen via a watch event (created while running)
     first_seen: dict[tuple, Any] = {}
     for cyc in tr["cycles"]:
